@@ -5,6 +5,7 @@ regenerated from /repo/src on every run) are the API functions `Kernel.isBlocked
 two Python functions read (`_fut_waiter` and its done-ness, `task.done()`).
 -/
 import Asynkit.Gen.Sched
+import Asynkit.Gen.SchedOps
 import Asynkit.Model.Kernel
 
 namespace Asynkit.GenEqC09
@@ -23,5 +24,32 @@ theorem taskIsRunnable_eq (s : State) (t : TaskId) : Gen.taskIsRunnable (view s 
   unfold Gen.taskIsRunnable isRunnable
   rw [taskIsBlocked_eq]
   rfl
+
+/-- what `task_from_handle` / `is_task_callback` read of the callback of a kernel handle
+    (`py t`: task `t` is a Python task — bound methods `__step` / `__wakeup` of type `method`; else a
+    C task — a `TaskStepMethWrapper` instance without `__name__`, the builtin `task_wakeup`); a
+    plain callback has no `__self__`; `otherBound t` is another bound method of the task, e.g.
+    `task.cancel` -/
+def cbView (py : TaskId → Bool) : Handle → Gen.CallbackView
+  | .step t _ =>
+    { self_ := some (some t), name := if py t then some "__step" else none,
+      typeName := if py t then "method" else "TaskStepMethWrapper" }
+  | .wakeup t _ =>
+    { self_ := some (some t), name := if py t then some "__wakeup" else some "task_wakeup",
+      typeName := if py t then "method" else "builtin_function_or_method" }
+  | .cb _ => { self_ := none, name := some "cb", typeName := "function" }
+  | .otherBound t =>
+    { self_ := some (some t), name := some "cancel",
+      typeName := if py t then "method" else "builtin_function_or_method" }
+
+/-- the generated `default.task_from_handle` (with the generated `is_task_callback` and
+    `TASK_CALLBACK_NAMES`) is `Kernel.taskFromHandle`, for Python and C tasks alike -/
+theorem taskFromHandle_eq (py : TaskId → Bool) (h : Handle) :
+    Gen.taskFromHandle (cbView py h) = taskFromHandle h := by
+  cases h with
+  | step t e => cases hp : py t <;> simp [cbView, hp, Gen.taskFromHandle, Gen.isTaskCallback, Gen.taskCallbackNames, taskFromHandle]
+  | wakeup t f => cases hp : py t <;> simp [cbView, hp, Gen.taskFromHandle, Gen.isTaskCallback, Gen.taskCallbackNames, taskFromHandle]
+  | cb k => rfl
+  | otherBound t => cases hp : py t <;> simp [cbView, hp, Gen.taskFromHandle, Gen.isTaskCallback, Gen.taskCallbackNames, taskFromHandle]
 
 end Asynkit.GenEqC09
